@@ -36,6 +36,9 @@ def _const_tuples(tree):
             bound.setdefault(tg, []).append(val)
     out = {}
     for name, vals in bound.items():
+        # a tuple of types (names / dotted names) for ``isinstance(v, NAME)``
+        if len(vals) == 1 and isinstance(vals[0], ast.Tuple) and len(vals[0].elts) >= 2 and all(_dotted(e) for e in vals[0].elts):
+            out[name] = vals[0]
         if len(vals) == 1 and isinstance(vals[0], ast.Tuple) and vals[0].elts and all(isinstance(e, ast.Constant) or (isinstance(e, ast.Tuple) and e.elts and all(isinstance(x, ast.Constant) for x in e.elts)) for e in vals[0].elts):
             out[name] = vals[0]
     # any other store to the name (global statement + assignment, del, augmented) disqualifies it
@@ -45,6 +48,12 @@ def _const_tuples(tree):
             if n_defs == 0:
                 out.pop(sub.id, None)
     return out
+
+
+def _dotted(e):
+    while isinstance(e, ast.Attribute):
+        e = e.value
+    return isinstance(e, ast.Name)
 
 
 def _simple_subject(e):
@@ -80,6 +89,8 @@ class _Exprs(ast.NodeTransformer):
     def visit_Call(self, node):
         self.generic_visit(node)
         f = node.func
+        if isinstance(f, ast.Name) and f.id == "isinstance" and len(node.args) == 2 and not node.keywords and isinstance(node.args[1], ast.Name) and node.args[1].id in self.consts and all(_dotted(e) for e in self.consts[node.args[1].id].elts):
+            node.args[1] = copy.deepcopy(self.consts[node.args[1].id])
         if isinstance(f, ast.Name) and f.id == "isinstance" and len(node.args) == 2 and not node.keywords and isinstance(node.args[1], ast.Tuple) and len(node.args[1].elts) >= 2 and _simple_subject(node.args[0]) and not any(isinstance(e, ast.Starred) for e in node.args[1].elts):
             parts = [ast.copy_location(ast.Call(func=copy.deepcopy(f), args=[copy.deepcopy(node.args[0]), e], keywords=[]), node) for e in node.args[1].elts]
             self.count += 1
